@@ -587,7 +587,8 @@ def run(fns, tier):
         full, core = item_kinds(list(ops), "quick")
         sem = [k for k in core if k[0] in SEMANTIC and k[1] != "tag"]
         import random
-        rnd = random.Random(4)       # fixed: this is a regression grid for the translator, not the deciding step
+        # the grid only validates the translator (it is not the deciding step); VERIF_SEED varies which cases are drawn
+        rnd = random.Random(4 + int(os.environ.get("VERIF_SEED", "0") or 0))
         combos = [(k,) for k in sem] + rnd.sample(list(itertools.product(sem, repeat=2)), 40)
         for combo in combos:
             for nullable in (True, False):
